@@ -243,7 +243,10 @@ let int_tok (t : string) : int =
 
 let failat_tok (t : string) : n option =
   let k = int_tok t in
-  if k < -1 then raise (Bad_case "failat") else if k < 0 then None else Some (n_of_int k)
+  (* k >= 1_000_000 encodes a writer that fails ONLY at call k - 1_000_000; the model's run is the same:
+     nothing is written after the first failure (theorem C19_io_error_needs_fault) *)
+  if k < -1 then raise (Bad_case "failat") else if k < 0 then None
+  else if k >= 1_000_000 then Some (n_of_int (k - 1_000_000)) else Some (n_of_int k)
 
 let parse_ft (t : string) : (n * n list) list =
   if t = "-" || t = "" then []
